@@ -436,7 +436,8 @@ def replay_all(pid, traces, res, drv):
         cfg = cfg_tokens(sc, ids, order)
         lines.append("replayA %s mode=%s ev=%s" % (cfg, A_MODE.get(pid, "strict"), ";".join(A)))
         cases.append((sc, "A", len(A)))
-        if "B" in layers:
+        if "B" in layers and not sc.get("rerun"):
+            # (a second run of the same object does not shut its jobs down again: `_did_shutdown` is for life)
             lines.append("replayB %s diag=%s ev=%s" % (cfg, diag, ";".join(B)))
             cases.append((sc, "B", len(B)))
     outs = drv.ask(lines)
